@@ -470,6 +470,13 @@ def check_tsd_types(model, api, specs, trace, oc, out_v):
                     if t is None or t[1] != 1:
                         out_v.append(viol('tsd_types-declared-once:union', 'union %s.%s is declared %d times' % (nsn, d.name, t[1] if t else 0), inputs))
                         continue
+                    # the implicit catch-all tag belongs to the first open union of a chain (a root, or a child of a closed union)
+                    parent_closed = d.parent is None or mm.resolve(model, nsn, d.parent)[1].closed
+                    if not d.closed and parent_closed:
+                        ent = mod['interfaces'].get(d.name + 'Other')
+                        if ent is None or ent['count'] != 1:
+                            out_v.append(viol('tsd_types-tag-interface:catch-all:%s' % ('root' if d.parent is None else 'open-child-of-closed'),
+                                              'the catch-all tag of union %s.%s has %d interfaces named %sOther' % (nsn, d.name, ent['count'] if ent else 0, d.name), inputs))
                     for tag in mm.own_members(model, nsn, d):
                         iname = d.name + pascal(tag.name)
                         ent = mod['interfaces'].get(iname)
